@@ -283,7 +283,12 @@ func (c *shardCtl) foldNew() (*proto.WriteResponse, []refPutOutcome, error) {
 }
 
 // dumpDB returns the full ordered content of a DB.
-func dumpDB(db kv.DB) ([]dumpEntry, error) {
+func dumpDB(db kv.DB) (out []dumpEntry, err error) {
+	defer func() {
+		if p := recover(); p != nil { // the engine panics when it has been closed underneath the reader
+			out, err = nil, fmt.Errorf("engine not readable: %v", p)
+		}
+	}()
 	k := kv.SimKVOf(db)
 	if k == nil {
 		return nil, fmt.Errorf("no kv")
@@ -293,7 +298,6 @@ func dumpDB(db kv.DB) ([]dumpEntry, error) {
 		return nil, err
 	}
 	defer it.Close()
-	var out []dumpEntry
 	for ; it.Valid(); it.Next() {
 		v, err := it.Value()
 		if err != nil {
